@@ -181,7 +181,10 @@ func build(base string, startLoops bool) (a *asm, err error) {
 	stats.VerifC08InitWeb(a.stats)
 
 	fc := &filtering.Config{
-		BlockingMode: filtering.BlockingModeDefault, BlockedResponseTTL: 10, ProtectionEnabled: true, FilteringEnabled: true,
+		// Blocking mode "custom address": the answers carry configured addresses
+		// which POST /control/dns_config (switching to another mode) takes away.
+		BlockingMode: filtering.BlockingModeCustomIP, BlockingIPv4: netip.MustParseAddr(blockedV4), BlockingIPv6: netip.MustParseAddr("fd00::10"),
+		BlockedResponseTTL: 10, ProtectionEnabled: true, FilteringEnabled: true,
 		BlockedServices:      &filtering.BlockedServices{Schedule: schedule.EmptyWeekly(), IDs: []string{"9gag"}},
 		ApplyClientFiltering: a.clients.ApplyClientFiltering,
 		ConfigModified:       a.configModified, HTTPRegister: a.reg,
@@ -306,6 +309,9 @@ var requests = []reqBody{
 	}},
 }
 
+// blockedV4 is the address a blocked A question is answered with.
+const blockedV4 = "10.10.10.10"
+
 // wellFormed checks the response the property promises.
 func wellFormed(resp, req *dns.Msg, err error) string {
 	if err != nil {
@@ -322,6 +328,18 @@ func wellFormed(resp, req *dns.Msg, err error) string {
 	}
 	if _, perr := resp.Pack(); perr != nil {
 		return "response does not pack: " + perr.Error()
+	}
+	for _, rr := range resp.Answer {
+		switch v := rr.(type) {
+		case *dns.A:
+			if len(v.A.To4()) != 4 {
+				return "an A record of the response has no address: " + rr.String()
+			}
+		case *dns.AAAA:
+			if len(v.AAAA) != 16 {
+				return "an AAAA record of the response has no address: " + rr.String()
+			}
+		}
 	}
 	return ""
 }
